@@ -73,6 +73,47 @@ type (
 	}
 )
 
+// closureV is a function literal together with the environment it closes over.
+type closureV struct {
+	lit   *ast.FuncLit
+	env   *env
+	frame *frame
+}
+
+// callClosure evaluates a function literal on the given arguments.
+func (in *Interp) callClosure(cl closureV, args []Val) Val {
+	if in.depth >= in.MaxDepth+4 {
+		outOfFragment("closure nesting too deep")
+	}
+	in.depth++
+	defer func() { in.depth-- }()
+	sig, _ := cl.frame.pkg.TypesInfo.TypeOf(cl.lit).(*types.Signature)
+	nf := &frame{in: in, pkg: cl.frame.pkg, env: newEnv(cl.env), sig: sig, name: cl.frame.name + "$lit"}
+	i := 0
+	for _, fl := range cl.lit.Type.Params.List {
+		for _, n := range fl.Names {
+			if i < len(args) {
+				nf.env.vars[n.Name] = args[i]
+			}
+			i++
+		}
+		if len(fl.Names) == 0 {
+			i++
+		}
+	}
+	if cl.lit.Type.Results != nil {
+		for _, fl := range cl.lit.Type.Results.List {
+			for _, n := range fl.Names {
+				nf.env.vars[n.Name] = nf.zero(cl.frame.pkg.TypesInfo.TypeOf(fl.Type))
+			}
+		}
+	}
+	if nf.block(cl.lit.Body.List, nf.env) == ctlReturn {
+		return nf.ret
+	}
+	return nil
+}
+
 type errFragment struct{ msg string }
 
 func (e errFragment) Error() string { return e.msg }
@@ -765,7 +806,7 @@ func (f *frame) expr(x ast.Expr, e *env) Val {
 		}
 		outOfFragment("%s: slice expression %s", f.name, types.ExprString(x))
 	case *ast.FuncLit:
-		outOfFragment("%s: function literal", f.name)
+		return closureV{lit: x, env: e, frame: f}
 	}
 	outOfFragment("%s: expression %T (%s) outside the fragment", f.name, x, types.ExprString(x))
 	return nil
@@ -1069,6 +1110,17 @@ func (f *frame) call(x *ast.CallExpr, e *env) Val {
 		}
 	}
 	if obj == nil {
+		if id, ok := x.Fun.(*ast.Ident); ok {
+			if v, _, found := e.lookup(id.Name); found {
+				if cl, ok := v.(closureV); ok {
+					var args []Val
+					for _, a := range x.Args {
+						args = append(args, f.expr(a, e))
+					}
+					return f.in.callClosure(cl, args)
+				}
+			}
+		}
 		if f.in.DynCall != nil {
 			fv := f.expr(x.Fun, e)
 			var args []Val
@@ -1092,6 +1144,33 @@ func (f *frame) call(x *ast.CallExpr, e *env) Val {
 	if f.in.Call != nil {
 		if v, ok := f.in.Call(key, recv, args); ok {
 			return v
+		}
+	}
+	switch key {
+	case "strings.IndexFunc", "strings.ContainsFunc", "strings.LastIndexFunc":
+		if len(args) == 2 {
+			sv, ok1 := args[0].(cv)
+			cl, ok2 := args[1].(closureV)
+			if ok1 && ok2 && sv.v.Kind() == constant.String {
+				str := constant.StringVal(sv.v)
+				idx := -1
+				for i, r := range str {
+					b, ok := valBool(f.in.callClosure(cl, []Val{mkInt(int64(r))}))
+					if !ok {
+						outOfFragment("%s: predicate of %s does not yield a boolean", f.name, key)
+					}
+					if b {
+						idx = i
+						if key != "strings.LastIndexFunc" {
+							break
+						}
+					}
+				}
+				if key == "strings.ContainsFunc" {
+					return mkBool(idx >= 0)
+				}
+				return mkInt(int64(idx))
+			}
 		}
 	}
 	if v, ok := builtinModel(key, recv, args); ok {
@@ -1223,6 +1302,12 @@ func builtinModel(key string, recv Val, args []Val) (Val, bool) {
 			}
 			if n, ok2 := valInt(args[1]); ok2 && key == "strings.IndexByte" {
 				return cv{constant.MakeInt64(int64(strings.IndexByte(a, byte(n))))}, true
+			}
+		}
+	case "unicode/utf8.RuneCountInString":
+		if len(args) == 1 {
+			if c, ok := args[0].(cv); ok && c.v.Kind() == constant.String {
+				return mkInt(int64(len([]rune(constant.StringVal(c.v))))), true
 			}
 		}
 	case "strings.ToUpper":
